@@ -498,11 +498,12 @@ impl Property for C20 {
         }
     }
     fn rule() -> String {
-        "sequences over {request by a new circuit / reconnection / repeated request while waiting with overlapping rooms, unlock by the holder, unlock of a free room, non-holder unlock (leftover task of an ended connection = double unlock; foreign), end of a connection (cleanup unlocks, channel dropped; variants: grants unread, channel dropped late)} for 1-3 circuits, 1-3 rooms, limit 1-2, run on the real RoomLockService one message at a time; random sequences (proptest) plus blocks enumerating EVERY canonical sequence (up to renaming of circuits and rooms) to a bounded length; non-trivial = at least two circuits and at least one grant that answered a request only after an unlock (a waiting request served later); distinct = distinct case digest (inside blocks: counter enum_nontrivial_sequences)".to_string()
+        "part 1: sequences over {request by a new circuit / reconnection / repeated request while waiting with overlapping rooms, unlock by the holder, unlock of a free room, non-holder unlock (leftover task of an ended connection = double unlock; foreign), end of a connection (cleanup unlocks, channel dropped; variants: grants unread, channel dropped late)} for 1-3 circuits, 1-3 rooms, limit 1-2, run on the real RoomLockService one message at a time and judged by a lock model, a final bounded drain and a probe connection; random sequences (proptest) plus blocks enumerating EVERY canonical sequence (up to renaming of circuits and rooms) to a bounded length. part 2: every combination of the exit-path scenario parameters (normal end / connection closed during a room synchronisation / loop exit on a malformed answer / end of events while the loop is busy; competitor, second request, full peer-service mailbox) on the real LocalPeerService::start wired to a real instance in memory. non-trivial = at least two circuits and at least one grant that answered a request only after an unlock (a waiting request served later), or an exit-path case other than the normal end; distinct = distinct case digest (inside blocks: counter enum_nontrivial_sequences)".to_string()
     }
     fn assumptions() -> Vec<String> {
         vec![
-            "the lock service is driven directly (RoomLockService::start/request_locks/unlock) on a current-thread runtime; the callers in peer_inbound_service.rs are represented by the operations they can produce, read from the code".into(),
+            "part 1 drives the lock service directly (RoomLockService::start/request_locks/unlock) on a current-thread runtime; the callers in peer_inbound_service.rs are represented by the operations they can produce, read from the code and confirmed by part 2".into(),
+            "part 2 runs the real LocalPeerService::start (main loop, process_acquired_room, cleanup) over in-memory channels; the QUIC transport and PeerConnectionService are not part of the check; its outcomes depend on thread scheduling (multi-thread runtime), liveness is judged with deadlines of 3-8 s".into(),
             "two connections alive at the same time under one circuit id are not generated".into(),
             "violations that need a foreign unlock (no caller sends one) are counted (counters 'unjudged ...') but not reported unless C20_JUDGE_FOREIGN=1".into(),
         ]
@@ -517,6 +518,7 @@ impl Property for C20 {
             })
             .collect();
         out.insert("exhaustive".into(), json!(true));
+        out.insert("exit_path_cases_all_parameter_combinations".into(), json!(exitpaths::all_cases().len()));
         out.insert("exhaustive_domain".into(), json!(cfgs));
         out.insert("exhaustive_sequences".into(), json!(m.counters.get("enum_sequences").cloned().unwrap_or(0)));
         out.insert(
